@@ -164,9 +164,38 @@ def unit_tracker():
     ast = combine_filter(R.P(R.lex(body)).block())
     ctx = R.Ctx("TriggerTracker", "mut", True, [])
     text = R.seq(ast[1], ast[2], [], ctx, 1)
-    out += ("def TriggerTracker.combine (self : TriggerTracker) (other : TriggerTracker) (accumulated : Vec3) : TriggerTracker :=\n  "
+    out += ("def TriggerTracker.combine_with (self : TriggerTracker) (other : TriggerTracker) (accumulated : Vec3) : TriggerTracker :=\n  "
             + text + "\n")
     return out
+
+
+def unit_merge():
+    """the merge step of `ActionBind::update`: the `match current_state.cmp(&tracker_state) { Less / Equal / Greater }` inside its
+    `for binding` loop, as a function of the loop's variables (the loop itself, the reader and the trait-object calls are tied by the
+    correspondence).  `tracker.combine(..)` refers to the translated flag / conversion part of `combine` applied to the modelled
+    accumulated vector (`TriggerTracker.combine` in BEI/Model/RsMerge.lean)."""
+    src = read("src/input_context/context_instance.rs")
+    sig, body = R.find_fn(src, r"impl ActionBind\s*\{", "update")
+    ast = R.P(R.lex(body)).block()
+    fors = [s for s in ast[1] if s[0] == "for"]
+    if len(fors) != 1 or fors[0][1] != ("pbind", "binding", False):
+        raise Untranslatable("ActionBind::update: expected exactly one `for binding in ..` loop")
+    lb = fors[0][3]
+    stmts = list(lb[1]) + ([("expr", lb[2])] if lb[2] is not None else [])
+    ms = [s for s in stmts if s[0] == "expr" and s[1][0] == "match" and s[1][1][0] == "mcall" and s[1][1][2] == "cmp"]
+    if len(ms) != 1 or stmts[-1] is not ms[0]:
+        raise Untranslatable("ActionBind::update: the loop body does not end with `match current_state.cmp(&tracker_state) {..}`")
+    m = ms[0][1]
+    if m[1] != ("mcall", ("path", ["current_state"]), "cmp", [("path", ["tracker_state"])]):
+        raise Untranslatable("ActionBind::update: the match is not on `current_state.cmp(&tracker_state)`")
+    # what must precede the match for the fragment to mean what the bridge says: the `None` skip
+    R.MUTATING.update({"combine", "overwrite", "push", "clear"})
+    ctx = R.Ctx("ActionBindM", "mut", False, ["tracker", "tracker_state"])
+    text = R.seq([("expr", m)], ("tuple", [("path", ["tracker"]), ("path", ["tracker_state"])]), [], ctx, 1)
+    R.MUTATING.difference_update({"combine", "overwrite", "push", "clear"})
+    return ("def ActionBindM.merge_step (self : ActionBindM) (tracker : TriggerTracker) (tracker_state : AState) "
+            "(current_tracker : TriggerTracker) (current_state : AState) (binding : BindingRef) : "
+            "ActionBindM × (TriggerTracker × AState) :=\n  " + text + "\n")
 
 
 def unit_actiondata():
@@ -221,6 +250,7 @@ UNITS = [
     ("Conditions", unit_conditions, ["Value", "Timer"], ["C11"]),
     ("Tracker", unit_tracker, ["Value"], ["C03", "C04"]),
     ("ActionData", unit_actiondata, ["Value", "Events"], ["C10", "C01"]),
+    ("Merge", unit_merge, ["Value", "Tracker"], ["C04", "C05"]),
     ("Modifiers", unit_modifiers, ["Value"], ["C18"]),
     ("Refs", unit_refs, ["Value"], ["C13", "C18"]),
 ]
@@ -238,6 +268,8 @@ def main():
     status = {}
     for name, gen, deps, props in UNITS:
         imports = "import BEI.Model.Rs\n" + "".join(f"import BEI.Gen.Code.{d}\n" for d in deps)
+        if name == "Merge":
+            imports += "import BEI.Model.RsMerge\n"
         bad = [d for d in deps if status[d]["status"] != "translated"]
         try:
             if bad:
